@@ -659,6 +659,12 @@ def ref_rename_genes(R, A, d):
         if rule_genes(r["rule"]) & set(eff):
             r["rule"] = rule_rename(r["rule"], eff)
     for g in drop:
+        # a gene renamed onto an existing one is merged with it: the target takes its place in the groups (as a plain rename keeps
+        # the membership under the new name; the documentation is silent, /repo 7173bc7 does this)
+        for gd in R.groups.values():
+            if ("Gene", g) in gd["members"]:
+                gd["members"].discard(("Gene", g))
+                gd["members"].add(("Gene", eff[g]))
         R._rm_gene(g)
 
 
